@@ -341,8 +341,8 @@ fn check_pad(c: &PadCase) -> Verdict {
 }
 
 fn groups(g: &mut Groups) {
-    g.prop("duration_bitlen", 1_200_000, 20_000_000, || bitlen_u128().prop_map(|picos| DurCase { picos, boundary: false }), check_duration);
-    g.prop("duration_boundary", 2_000_000, 40_000_000, || dur_boundary(), check_duration);
+    g.prop("duration_bitlen", 1_200_000, 80_000_000, || bitlen_u128().prop_map(|picos| DurCase { picos, boundary: false }), check_duration);
+    g.prop("duration_boundary", 2_000_000, 160_000_000, || dur_boundary(), check_duration);
     g.enumerate(
         "duration_golden",
         |_| {
@@ -363,7 +363,7 @@ fn groups(g: &mut Groups) {
     g.prop(
         "bytes_bits",
         800_000,
-        10_000_000,
+        40_000_000,
         || (
             prop_oneof![
                 4 => (0u64..0x7ff0_0000_0000_0000),
@@ -377,12 +377,12 @@ fn groups(g: &mut Groups) {
             .prop_map(|(bits, binary)| BytesCase { bits, binary, boundary: false }),
         check_bytes,
     );
-    g.prop("bytes_boundary", 1_200_000, 20_000_000, || bytes_boundary(), check_bytes);
+    g.prop("bytes_boundary", 1_200_000, 80_000_000, || bytes_boundary(), check_bytes);
 
     g.prop(
         "throughput_any",
         800_000,
-        10_000_000,
+        40_000_000,
         || (
             0u8..4,
             prop_oneof![4 => edge_u64(), 1 => Just(0u64), 2 => 1u64..=1_000_000],
@@ -392,12 +392,12 @@ fn groups(g: &mut Groups) {
             .prop_map(|(kind, count, picos, binary)| ThrCase { kind, count, picos, binary, boundary: false }),
         check_throughput,
     );
-    g.prop("throughput_boundary", 1_200_000, 20_000_000, || thr_boundary(), check_throughput);
+    g.prop("throughput_boundary", 1_200_000, 80_000_000, || thr_boundary(), check_throughput);
 
     g.prop(
         "duration_width_precision",
         400_000,
-        2_000_000,
+        8_000_000,
         || (prop_oneof![bitlen_u128(), dur_boundary().prop_map(|c| c.picos)], proptest::option::of(0u8..=6), proptest::option::of(0u8..=24))
             .prop_map(|(picos, precision, width)| PadCase { picos, precision, width }),
         check_pad,
